@@ -22,6 +22,7 @@ struct Mon<'a> {
   restarts: u64,
   source_edits: u64,
   io_bytes_by_invariance: u64,
+  timer_overflows: u64,
 }
 
 impl<'a> Mon<'a> {
@@ -75,9 +76,31 @@ impl<'a> Mon<'a> {
         want_writes.push((0xfe00 + off as u16, v));
       }
       let before_others = others_digest(&core.memory);
+      // the other devices go on while the transfer runs: a timer overflow inside the batch
+      // must reach IF like any other (reference: the closed form of C13)
+      let mut ref_timer = {
+        let t = &core.memory.io.timer;
+        super::c13::RefTimer { div: t.verif_cycle_count() as u16, tima: t.get_counter(), tma: t.get_modulo(), tac: t.get_timer_control() & 7 }
+      };
+      core.memory.io.interrupt_flag.clear(4);
       verif::start(true);
       core.memory.run_clock_cycles(ClockCycles(cycles as usize * 4));
       verif::stop();
+      {
+        let want_irq = ref_timer.run_closed(cycles * 4);
+        let got_irq = core.memory.io.interrupt_flag.as_u8() & 4 != 0;
+        let tima = core.memory.io.timer.get_counter();
+        if want_irq {
+          self.timer_overflows += 1;
+        }
+        if got_irq != want_irq || tima != ref_timer.tima {
+          self.ctx.violation(
+            if got_irq != want_irq { "C16:timer-request-during-transfer" } else { "C16:timer-count-during-transfer" },
+            &format!("page {:02X} {} batch #{} of {} machine cycles, transfer {}: timer interrupt requested={} TIMA={:02X}, the timer alone would give requested={} TIMA={:02X}", src_page, tag, bi, cycles, if progress < 0xa0 { "running" } else { "finished" }, got_irq, tima, want_irq, ref_timer.tima),
+          );
+          return None;
+        }
+      }
       self.batches += 1;
       elapsed_since_start += cycles as u64;
       let reads: Vec<u16> = verif::events().iter().filter(|e| e.kind == EV_READ).map(|e| e.a as u16).collect();
@@ -157,7 +180,7 @@ pub fn run(ctx: &mut Ctx) {
     }
   }
   support::stamp_header(&mut image, 0x03, 0x02, 0x03);
-  let mut m = Mon { ctx, evaluations: 0, bytes_copied: 0, batches: 0, restarts: 0, source_edits: 0, io_bytes_by_invariance: 0 };
+  let mut m = Mon { ctx, evaluations: 0, bytes_copied: 0, batches: 0, restarts: 0, source_edits: 0, io_bytes_by_invariance: 0, timer_overflows: 0 };
   for page in 0..=255u16 {
     let page = page as u8;
     if !m.ctx.mine(page as u64) {
@@ -275,6 +298,7 @@ pub fn run(ctx: &mut Ctx) {
   m.ctx.count("restarts", m.restarts);
   m.ctx.count("source-bytes-edited-mid-transfer", m.source_edits);
   m.ctx.count("io-page-source-bytes-decided-by-partition-invariance", m.io_bytes_by_invariance);
+  m.ctx.count("batches-with-a-timer-overflow", m.timer_overflows);
 }
 
 pub fn on_crash(intent: &[u64], text: &str, status: &str, _err: &str) -> Option<(String, String)> {
